@@ -72,6 +72,36 @@ def sl2_to_so21(ctx):
         ctx.ensure_eq(f'array_unit{i}', r[i], lie.sl2_to_so21(A2[i]))
 
 
+ARRAY_MAPS = {
+    "sl2_irrep3": (lambda A: lie.sl2_irrep(A, 3), 2, False),
+    "sl2_to_so21": (lambda A: lie.sl2_to_so21(A), 2, False),
+    "slc_to_slr": (lambda A: lie.slc_to_slr(A), 2, True),
+    "block_include": (lambda A: lie.block_include(A, 4), 2, False),
+    "gln_adjoint": (lambda A: lie.gln_adjoint(A), 2, False),
+}
+
+
+@rcontract(P, "arrays_of_matrices", instances=[dict(which=w, shape=s_) for w in ARRAY_MAPS for s_ in ((2, 3), (2, 2), (1, 2)) if w != "gln_adjoint" or s_ == (2, 2)],
+           timeout=120.0, bounded_n=(20, 100),
+           functions=["geometry_tools/lie/core.py:sl2_irrep", "geometry_tools/lie/core.py:sl2_to_so21", "geometry_tools/lie/core.py:slc_to_slr", "geometry_tools/lie/core.py:block_include",
+                      "geometry_tools/lie/core.py:gln_adjoint"])
+def arrays_of_matrices(ctx, which, shape):
+    """'for single matrices and for arrays of matrices alike', all array shapes: entry [i, j] of the image of an array of
+    rank 2 is the image of entry [i, j] (an image with transposed or merged batch axes fails here)"""
+    f, n, cplx = ARRAY_MAPS[which]
+    shape = tuple(shape)
+    A = mats(ctx, 'A', n, cplx, shape=shape)
+    if which == "gln_adjoint":
+        for idx in np.ndindex(*shape):
+            ctx.assume(_modsq(det(A[idx], ctx)), '>', 0)
+    r = f(A)
+    u0 = f(A[(0,) * len(shape)])
+    ctx.ensure_true('shape', np.shape(r) == shape + np.shape(u0), f"{np.shape(r)} vs {shape + np.shape(u0)}")
+    if np.shape(r) == shape + np.shape(u0):
+        for idx in np.ndindex(*shape):
+            ctx.ensure_eq(f'unit{idx}', r[idx], f(A[idx]), tol=1e-6)
+
+
 @rcontract(P, "sl2_iso_isometry", instances=[dict(sign=1), dict(sign=-1)],
            functions=["geometry_tools/hyperbolic.py:sl2_iso", "geometry_tools/hyperbolic.py:Isometry.__init__", "geometry_tools/lie/core.py:sl2_to_so21"])
 def sl2_iso_isometry(ctx, sign):
